@@ -187,6 +187,9 @@ def run_repz(job, res):
             S(SEM.edi, X.ExprInt(M.uint32(0x2000)))
             S(SEM.df, X.ExprInt(M.uint32(0)))
             S(SEM.eax, X.ExprInt(M.uint32(acc)))
+            # the flag left by earlier instructions is an arbitrary concrete bit: the loop must not look at it before its first step
+            zf0 = SInt.var('zf0', 0, 1)
+            S(SEM.zf, X.ExprInt(M.uint32(zf0)))
             for k in range(cnt):
                 S(X.ExprMem(X.ExprInt(M.uint32(0x1000 + k * size)), 8 * size), X.ExprInt(UT(av[k])))
                 S(X.ExprMem(X.ExprInt(M.uint32(0x2000 + k * size)), 8 * size), X.ExprInt(UT(bv[k])))
@@ -200,12 +203,12 @@ def run_repz(job, res):
             W = core.Ctx.W
             done = z3.BoolVal(False)
             executed = z3.BitVecVal(0, W)
-            zf_t = None
+            zf_t = (core.term_of(zf0) == 1)
             for k in range(cnt):
                 active = z3.Not(done)
                 left = core.term_of(acc) if mn.startswith('scas') else core.term_of(av[k])
                 eq = (left == core.term_of(bv[k]))
-                zf_t = eq if zf_t is None else z3.If(active, eq, zf_t)
+                zf_t = z3.If(active, eq, zf_t)
                 executed = z3.If(active, executed + 1, executed)
                 stop = z3.Not(eq) if pfx == 0xF3 else eq
                 done = z3.Or(done, z3.And(active, stop))
@@ -221,7 +224,7 @@ def run_repz(job, res):
                     return ('CEX', nm, 'final %s differs from the architectural loop' % nm, eng.model_inputs(m))
                 if st_ != 'unsat':
                     return ('ABORT', 'unknown')
-            if cnt:
+            if True:
                 got = machine.eval_expr(machine.pool[SEM.zf], {})
                 if not isinstance(got, X.ExprInt):
                     return ('CEX', 'zf', 'final zf is not a constant: %s' % got, eng.model_inputs(eng.witness()))
@@ -370,19 +373,19 @@ if kind == 'repz':
     b = bytes([pfx]) + bytes(A.x86mnemo.asm(mn)[0]); ri = A.x86mnemo.dis(b); ri.offset = 0
     av = [V.get('a%%d' %% k, 0) for k in range(cnt)]; bv = [V.get('b%%d' %% k, 0) for k in range(cnt)]; acc = V.get('acc', 0)
     mch = EH.x86_machine(); S = lambda d, s_: mch.eval_instr([X.ExprAff(d, s_)])
-    S(SEM.ecx, X.ExprInt(M.uint32(cnt))); S(SEM.esi, X.ExprInt(M.uint32(0x1000))); S(SEM.edi, X.ExprInt(M.uint32(0x2000))); S(SEM.df, X.ExprInt(M.uint32(0))); S(SEM.eax, X.ExprInt(M.uint32(acc)))
+    S(SEM.ecx, X.ExprInt(M.uint32(cnt))); S(SEM.esi, X.ExprInt(M.uint32(0x1000))); S(SEM.edi, X.ExprInt(M.uint32(0x2000))); S(SEM.df, X.ExprInt(M.uint32(0))); S(SEM.eax, X.ExprInt(M.uint32(acc))); S(SEM.zf, X.ExprInt(M.uint32(V.get('zf0', 0))))
     for k in range(cnt):
         S(X.ExprMem(X.ExprInt(M.uint32(0x1000 + k * size)), 8 * size), X.ExprInt(UT(av[k]))); S(X.ExprMem(X.ExprInt(M.uint32(0x2000 + k * size)), 8 * size), X.ExprInt(UT(bv[k])))
     try:
         EH.emul_lines(mch, [ri])
     except Exception as ex:
         print('emulation raises', type(ex).__name__, ex); print('C07 replay: VIOLATED'); sys.exit(1)
-    n = 0; zf = None
+    n = 0; zf = V.get('zf0', 0)
     for k in range(cnt):
         eq = ((acc if mn.startswith('scas') else av[k]) == bv[k]); zf = int(eq); n += 1
         if (pfx == 0xF3 and not eq) or (pfx == 0xF2 and eq): break
     want = {'ecx': cnt - n, 'esi': 0x1000 + (n * size if mn.startswith('cmps') else 0), 'edi': 0x2000 + n * size}
-    if cnt: want['zf'] = zf
+    want['zf'] = zf
     bad = False
     for nm, w in want.items():
         got = mch.eval_expr(mch.pool[getattr(SEM, nm)], {})
